@@ -27,7 +27,7 @@ RULE = ("case = one typed assignment through remote.sdo[key].raw (key by index, 
         "client threads on distinct nodes, unique values per thread, noise traffic, seeded delivery delays and yield "
         "injection. Signature = (mode, type, key style, value class); distinct interleaving signatures are recorded "
         "separately; non-trivial = value not 0/1/empty.")
-RULE += (" " + "Widened later: configured Default/ParameterValues on strings and blobs, values ending in blanks / starting with byte-order-mark look-alikes, a record whose member names contain dots, an idle node flooded with unsolicited answers (blocked receive path detection), mode 'slow' (0.25 s per frame with RESPONSE_TIMEOUT raised); client time-outs in threaded modes are triaged by the delivery log.")
+RULE += (" " + "Widened later: configured Default/ParameterValues on strings and blobs, values ending in blanks / starting with byte-order-mark look-alikes, a record whose member names contain dots, an idle node flooded with unsolicited answers (blocked receive path detection), mode 'slow' (0.25 s per frame with RESPONSE_TIMEOUT raised); client time-outs in threaded modes are triaged by the delivery log.; unrelated 29-bit traffic whose low 11 bits equal an SDO channel of a node under test; one threaded shard in which all eight threads move values of the odd-width integer types only (shared codec objects), followed by a bus-less burst of application-side reads and writes on each thread's own node, with schedule perturbation inside the codec.")
 ASSUMPTIONS = ["schedules are sampled (seeded delays, yield injection), not enumerated",
                "unrelated traffic = frames on COB-IDs other than the SDO channels of the nodes under test",
                "a time-out in a threaded mode is a violation only when the response is known to have been delivered"]
@@ -48,6 +48,11 @@ def plan(tier, seed):
     for i in range(1 if tier == "quick" else 6):
         shards.append({"mode": "pycan", "threads": [4, 8, 2][i % 3], "ops": 40 if tier == "quick" else 150, "cs": seed * 100 + 60 + i})
     shards.append({"mode": "slow", "cs": seed * 100 + 95})
+    # all threads move values of the same few types (the codec objects behind a data type are shared by every node of the
+    # process); the schedule is perturbed inside the codec as well
+    for i in range(1 if tier == "quick" else 4):
+        shards.append({"mode": "threaded", "threads": 8, "ops": 60 if tier == "quick" else 200, "cs": seed * 100 + 70 + i, "perturb": True,
+                       "types": "odd-width", "p_yield": 0.08})
     for i in range(1 if tier == "quick" else 6):
         shards.append({"mode": "fragile", "threads": [4, 8, 6][i % 3], "ops": 40 if tier == "quick" else 150, "cs": seed * 100 + 80 + i})
     return shards
@@ -295,8 +300,17 @@ def noise_loop(station, stop, rng, node_ids):
             station.send(0x80 + nid, bytes(rng.getrandbits(8) for _ in range(8)))
         elif kind < 0.7:
             station.send(0x80, b"")
-        elif kind < 0.85:
+        elif kind < 0.8:
             station.send(0x580 + nid, bytes([0x43, 0, 0x20, 0]) + bytes(rng.getrandbits(8) for _ in range(4)))
+        elif kind < 0.9:
+            # 29-bit traffic (J1939 and the like share the wire): identifiers whose low 11 bits happen to equal an SDO
+            # channel of a node under test are still unrelated frames
+            base = rng.choice([0x18FE0000, 0x0CF00000, 0x1FFFF800, 0x00000800])
+            tgt = rng.choice(list(node_ids))
+            if rng.random() < 0.5:
+                station.send(base | (0x580 + tgt), bytes([0x80, 0, 0x20, 0, 0, 0, 0x04, 0x05]))
+            else:
+                station.send(base | (0x600 + tgt), bytes([0x40, 0, 0x10, 0, 0, 0, 0, 0]))
         else:
             station.send(0x600 + nid, bytes([0x40, 0, 0x20, 0, 0, 0, 0, 0]))
         n += 1
@@ -304,10 +318,16 @@ def noise_loop(station, stop, rng, node_ids):
     return n
 
 
-def client_thread(ctx, rig, nid, tid, nthreads, ops, seed, mode, errors):
+ODD_WIDTH = [R.INTEGER24, R.UNSIGNED24, R.INTEGER40, R.UNSIGNED40, R.INTEGER48, R.UNSIGNED48, R.INTEGER56, R.UNSIGNED56]
+CODEC_TARGETS = [("objectdictionary/datatypes.py", "return super().unpack(", 0.0003),
+                 ("objectdictionary/datatypes.py", "packed = super().pack(", 0.0003),
+                 ("objectdictionary/__init__.py", "value, = self.STRUCT_TYPES[self.data_type].unpack(data)", 0.0002)]
+
+
+def client_thread(ctx, rig, nid, tid, nthreads, ops, seed, mode, errors, types=None):
     rng = random.Random(repr(("c03t", seed, tid)))
     remote, local = rig.remotes[nid], rig.locals[nid]
-    types = list(R.NAMES)
+    types = list(types or R.NAMES)
     try:
         for counter in range(ops):
             dt = rng.choice(types)
@@ -338,8 +358,32 @@ def client_thread(ctx, rig, nid, tid, nthreads, ops, seed, mode, errors):
                     own = owner_of(dt, got, nthreads)
                     mech = "cross-talk" if own is not None and own != tid else "readback-mismatch"
                     ctx.violation(f"{mech}:{side}:threaded", f"thread {tid} (node {nid}) wrote {v!r}, {side} read-back gave {got!r} (owner of that value: thread {own})", case)
+        if types is not None:
+            local_burst(ctx, local, nid, tid, nthreads, types, rng, ops * 20, mode)
     except BaseException as exc:  # noqa: BLE001 - harness failure must surface
         errors.append(({"thread": tid, "fatal": True}, exc, 0))
+
+
+def local_burst(ctx, local, nid, tid, nthreads, types, rng, n, mode):
+    """The application side of each node reads and writes its own entries in a tight loop while the other threads do
+    the same on theirs: no bus in between, so the shared codec objects are entered by several threads at once."""
+    for counter in range(n):
+        dt = rng.choice(types)
+        style, key = rng.choice(keys_for(dt))
+        v = unique_value(rng, dt, tid, nthreads, 100000 + counter)
+        case = {"mode": mode, "thread": tid, "node": nid, "type": R.NAMES[dt], "key": key, "value": v, "op": "local-burst"}
+        ctx.case((mode, "local-burst", R.NAMES[dt], style, nthreads), nontrivial=True)
+        try:
+            local.sdo[key].raw = v
+            got = local.sdo[key].raw
+        except Exception as exc:  # noqa: BLE001
+            ctx.violation(f"roundtrip-raised:{type(exc).__name__}:{R.NAMES[dt]}:local-burst", f"{type(exc).__name__}: {exc}", case)
+            continue
+        ctx.count("roundtrips")
+        if not equal(dt, got, v):
+            own = owner_of(dt, got, nthreads)
+            mech = "cross-talk" if own is not None and own != tid else "readback-mismatch"
+            ctx.violation(f"{mech}:local:threaded", f"thread {tid} (node {nid}) wrote {v!r}, its own node read back {got!r} (owner of that value: thread {own})", case)
 
 
 def triage_timeout(rig, case, duration):
@@ -386,14 +430,16 @@ def run_threaded(ctx, desc):
     rig.master_net.add_node(canopen.RemoteNode(IDLE_NODE, od_factory()))
     pert = None
     if desc.get("perturb") or mode in ("fragile",):
-        pert = perturb.Perturb(seed=desc["cs"], p_yield=0.02).start()
+        pert = perturb.Perturb(seed=desc["cs"], p_yield=desc.get("p_yield", 0.02),
+                               targets=perturb.DEFAULT_TARGETS + (CODEC_TARGETS if desc.get("types") else [])).start()
     stop = threading.Event()
     noise_count = [0]
     nt = threading.Thread(target=lambda: noise_count.__setitem__(0, noise_loop(rig.noise, stop, rng, node_ids)), daemon=True)
     nt.start()
     errors = []
     threads = [threading.Thread(target=client_thread, name=f"client-{t}", daemon=True,
-                                args=(ctx, rig, node_ids[t], t, nthreads, desc["ops"], desc["cs"], mode, errors))
+                                args=(ctx, rig, node_ids[t], t, nthreads, desc["ops"], desc["cs"], mode, errors,
+                                      ODD_WIDTH if desc.get("types") == "odd-width" else None))
                for t in range(nthreads)]
     for t in threads:
         t.start()
@@ -478,7 +524,7 @@ class PyCanRig:
 
         class Noise:
             def send(self_, can_id, data):
-                rig.noise_bus.send(can.Message(arbitration_id=can_id, data=data, is_extended_id=False))
+                rig.noise_bus.send(can.Message(arbitration_id=can_id, data=data, is_extended_id=can_id > 0x7FF))
         self.noise = Noise()
 
     def _sniff(self):
